@@ -23,7 +23,7 @@ func init() {
 			"Operation-level reference model through the verif-tagged hook: scalar reduction of 64 and 32 bytes, clamping, canonical check, MultiplyAdd/Add/Sub/Neg/Mul, the fork's own ModInverse, point decoding (accept set and value), ScalarMult, ScalarBaseMult, VarTimeDoubleScalarBaseMult, point Add/Sub/Neg, each compared with a math/big twisted-Edwards model on limb-boundary operand patterns, L-1, L, L+1, 2^252+-1, small-order and seeded points. " +
 			"distinct_nontrivial = distinct (case class, operand pattern) keys",
 		Floors: []string{"keys_equal_std", "signatures_equal_std", "verify_agree_accept", "verify_agree_reject", "small_order_inputs", "noncanonical_inputs", "s_plus_L_inputs", "forged_small_order_accepted_by_both", "bitflips", "generatekey_same_as_std",
-			"hook_scalar_ops", "hook_point_decode", "hook_scalar_mult", "hook_modinverse", "model_agrees_with_std"},
+			"cold_start_verify_agrees", "identity_key_high_s", "hook_scalar_ops", "hook_point_decode", "hook_scalar_mult", "hook_modinverse", "model_agrees_with_std"},
 		Assumptions: []string{"crypto/ed25519 of the Go toolchain that builds the harness is the reference", "the math/big model is cross-checked against crypto/ed25519 in the same run (class model_agrees_with_std)"},
 		SelfCheck:   []string{"model_disagrees_with_std"},
 		Run:         runC14,
@@ -134,7 +134,27 @@ func le32(x *big.Int) []byte {
 	return b
 }
 
+// RFC 8032 section 7.1, TEST 1 (empty message)
+var rfc8032Test1 = [3]string{
+	"d75a980182b10ab7d54bfed3c964073a0ee172f3daa62325af021a68f707511a",
+	"",
+	"e5564300c360ac729086e2cc806e828a84877f1eb8e5d974d873e065224901555fb8821590a33bacc61e39701cf9b46bd25bf5f0595bbe24655141438e7a100b",
+}
+
 func runC14(c *core.Ctx) {
+	// the very first Ed25519 operation of this worker process is a verification (a verifier-only process):
+	// it must give the standard library's verdict before any key was derived or anything signed here
+	{
+		pub, sig := unhex(rfc8032Test1[0]), unhex(rfc8032Test1[2])
+		f := ed25519.Verify(ed25519.PublicKey(pub), nil, sig)
+		s := stded.Verify(stded.PublicKey(pub), nil, sig)
+		c.Eval(1)
+		if f != s {
+			c.Violation("Verify:cold-start", fmt.Sprintf("the first operation of a process, Verify of RFC 8032 TEST 1, returns %v; crypto/ed25519 returns %v", f, s), map[string]any{"public_key": rfc8032Test1[0], "signature": rfc8032Test1[2]})
+		} else {
+			c.Class("cold_start_verify_agrees")
+		}
+	}
 	m := &c14{c: c}
 	m.findSmallOrder()
 
@@ -289,6 +309,27 @@ func runC14(c *core.Ctx) {
 		if ai == 0 {
 			c.Sample("adversarial cross product", map[string]any{"A_candidates": len(As), "R_candidates": len(Rs), "S_candidates": len(Ss)})
 			c.Exhaustive("single-bit flips of an honest (public key, message, signature) triple")
+		}
+	}
+	// A = identity: [k]A vanishes, so (R = [S]B, S) verifies for every message and every canonical S, including the
+	// top of the range [2^252, L) that honest signing reaches with negligible probability
+	if c.Next() {
+		r := c.CaseRng()
+		id := ref.EdEncode(ref.EdIdentity())
+		two252 := new(big.Int).Lsh(big.NewInt(1), 252)
+		ss := []*big.Int{new(big.Int).Sub(ref.EdL, big.NewInt(1)), new(big.Int).Sub(ref.EdL, big.NewInt(2)), two252, new(big.Int).Add(two252, big.NewInt(1)), new(big.Int).Sub(two252, big.NewInt(1)),
+			new(big.Int).Add(two252, new(big.Int).Lsh(big.NewInt(1), 100)), big.NewInt(1), big.NewInt(0), new(big.Int).Set(ref.EdL), new(big.Int).Add(ref.EdL, big.NewInt(1))}
+		for i := 0; i < 12; i++ {
+			x := new(big.Int).SetBytes(r.Bytes(40))
+			ss = append(ss, x.Mod(x, ref.EdL))
+			y := new(big.Int).SetBytes(r.Bytes(16))
+			ss = append(ss, y.Add(y, two252).Mod(y, ref.EdL))
+		}
+		for _, S := range ss {
+			R := ref.EdEncode(ref.EdMul(new(big.Int).Mod(S, ref.EdL), ref.EdB))
+			sig := append(clone(R), le32(S)...)
+			m.verify(id, r.Bytes(r.IntN(20)), sig, "identity-key:R=[S]B", true)
+			c.Class("identity_key_high_s")
 		}
 	}
 	// forged small-order signatures: S = 0, R = -[k]A
